@@ -48,7 +48,7 @@ def plan(tier, seed):
 
 def floors(tier):
     return {"distinct_nontrivial": 300, "cls:took_cache_hit": 400, "cls:provider:multi": 300, "cls:provider:forall": 50,
-            "cls:provider:nested": 50, "cls:provider:ruletree": 30, "cls:provider:flatten": 50, "cache.check.hit": 2000, "cache.retrieve": 1000}
+            "cls:provider:nested": 50, "cls:provider:ruletree": 30, "cls:provider:flatten": 50, "cls:more_than_500_rows_through_one_operator_cache": 20, "cache.check.hit": 2000, "cache.retrieve": 1000}
 
 
 def _gen_multi(rng):
@@ -82,10 +82,26 @@ def _gen_multi(rng):
     return case
 
 
+def _gen_large(rng):
+    """two joined variables over 30-40 objects each: several hundred to a thousand satisfying pairs go through one operator
+    cache (a size-bounded or re-hashed index shows only then)"""
+    world = D.random_world(rng, np_=(30, 40), nq=(30, 40), hi=6, rich=False)
+    A = lambda i, f: ["v", i, [["a", f]]]
+    cond = rng.choice([
+        ["and", ["cmp", "<=", A(0, "a"), A(1, "a")], ["cmp", "!=", A(0, "b"), A(1, "b")]],
+        ["or", ["and", ["cmp", "==", A(0, "a"), A(1, "a")], ["cmp", "<", A(0, "b"), A(1, "b")]], ["cmp", ">", A(0, "b"), A(1, "a")]],
+        ["cmp", "!=", A(0, "a"), A(1, "b")],
+    ])
+    return {"world": world, "kinds": ["P", "Q"], "cond": cond, "sel": [0, 1], "large": True}
+
+
 def cases(spec, ctx):
     provs = providers()
     for i in range(spec["n"]):
         rng = ctx.rng(spec["sub"], i)
+        if i % 130 == 7:
+            yield {"provider": "multi", "case": _gen_large(rng)}
+            continue
         k = rng.random()
         if k < 0.55:
             yield {"provider": "multi", "case": _gen_multi(rng)}
@@ -111,6 +127,8 @@ def run_provider(pc, caching, times=3):
 
 def check_case(pc, ctx):
     ctx.cls("cls:provider:" + pc["provider"])
+    if pc["case"].get("large"):
+        ctx.cls("cls:more_than_500_rows_through_one_operator_cache")
     try:
         M.begin_case()
         on, exp, multiset = run_provider(pc, True)
